@@ -14,6 +14,8 @@ pub struct NSwarm {
     pub utf8: bool,
     pub hard_reals: bool,
     pub full: bool,
+    /// near-limit records (strings of 32 KiB..65530 bytes, XY lists of 4095..8191 points)
+    pub big: bool,
 }
 impl NSwarm {
     pub fn draw(t: &mut Tape) -> Self {
@@ -25,11 +27,18 @@ impl NSwarm {
         if !kinds.iter().any(|k| *k) {
             kinds[t.draw(7) as usize] = true;
         }
-        NSwarm { kinds, opt_pm: *t.pick(&[0, 200, 500, 800, 1000]), max_structs: *t.pick(&[0, 1, 2, 3, 5]), max_elems: *t.pick(&[0, 1, 2, 4, 8]), max_props: *t.pick(&[0, 0, 1, 2, 6]), utf8: t.chance(1, 4), hard_reals: t.chance(2, 3), full: t.chance(1, 2) }
+        NSwarm { kinds, opt_pm: *t.pick(&[0, 200, 500, 800, 1000]), max_structs: *t.pick(&[0, 1, 2, 3, 5]), max_elems: *t.pick(&[0, 1, 2, 4, 8]), max_props: *t.pick(&[0, 0, 1, 2, 6]), utf8: t.chance(1, 4), hard_reals: t.chance(2, 3), full: t.chance(1, 2), big: t.chance(1, 30) }
     }
 }
 pub fn gen_bytes_string(t: &mut Tape, sw: &NSwarm) -> Vec<u8> {
     let cat = t.draw(20);
+    if sw.big && t.chance(1, 6) {
+        // records whose 16-bit length has its top bit set, up to the longest possible payload (65530)
+        let len = *t.pick(&[32762usize, 32763, 32764, 40001, 65529, 65530]);
+        let mut v = vec![b'k'; len];
+        v[0] = b'A' + t.draw(26) as u8;
+        return v;
+    }
     let len = match cat {
         0 | 1 => 0,
         2 | 3 => 1,
@@ -59,6 +68,11 @@ fn dates(t: &mut Tape) -> [i16; 12] {
     d
 }
 fn pts(t: &mut Tape, sw: &NSwarm, lo: u64, hi: u64) -> Vec<i32> {
+    if sw.big && hi > 5 && t.chance(1, 4) {
+        let n = *t.pick(&[4095u64, 4096, 6000, 8191]);
+        let x = gen_i32(t, sw.full);
+        return (0..2 * n).map(|i| x.wrapping_add(i as i32)).collect();
+    }
     let n = t.range(lo, hi);
     (0..2 * n).map(|_| gen_i32(t, sw.full)).collect()
 }
